@@ -129,6 +129,36 @@ def sparkTrim (numCols : Nat) (t : Table) : Table :=
     (t.trim (fun c _ _ => !keep.contains c) (akeys t.cols) (fun _ => akeys t.rows)).1
   else t
 
+/-- What the table aggregator of a `spark` run sees: a sample, or the trim step of a render (the periodic 100 ms
+renders and the final one). -/
+inductive SparkEv
+  | sample (e : Bytes)
+  | render
+  deriving Repr, DecidableEq
+
+def sparkStep (numCols : Nat) (t : Table) : SparkEv → Table
+  | .sample e => t.sample e
+  | .render => sparkTrim numCols t
+
+/-- The aggregator after a whole script of samples and renders. -/
+def sparkRun (numCols : Nat) (delim : Bytes) (evs : List SparkEv) : Table :=
+  evs.foldl (sparkStep numCols) { delim := delim }
+
+def sparkSamples : List SparkEv → List Bytes
+  | [] => []
+  | .sample e :: r => e :: sparkSamples r
+  | .render :: r => sparkSamples r
+
+/-- `samples` with a render after `k` samples for every `k` in `renders` (ascending; a count may repeat; counts
+beyond the number of samples are ignored). -/
+def sparkScript : Nat → List Bytes → List Nat → List SparkEv
+  | _, [], [] => []
+  | i, s :: ss, [] => .sample s :: sparkScript (i + 1) ss []
+  | i, [], r :: rs => if r ≤ i then .render :: sparkScript i [] rs else sparkScript i [] rs
+  | i, s :: ss, r :: rs =>
+    if r ≤ i then .render :: sparkScript i (s :: ss) rs else .sample s :: sparkScript (i + 1) ss (r :: rs)
+termination_by _ ss rs => ss.length + rs.length
+
 /-! ### cmd/helpers/exitCodes.go -/
 
 /-- `DetermineErrorState`: the exit code (0 = `nil`); `aggNil` = the aggregator argument is nil. -/
